@@ -1,4 +1,4 @@
-import DadiVerif.Lemmas.DataDictPi
+import DadiVerif.Lemmas.DataDictBsv
 /-!
 # C13 — genotype data become the spectrum and statistics that direct counting gives
 
@@ -629,6 +629,138 @@ example : (sRunWith [.saveAlias, .maskCorners, .sumVisible, .restore] [2] (fun _
 /-- no other statistic (`Watterson_theta`, `theta_L`, `pi`, `Tajima_D`, `Fst`, `Zengs_E`) contains a statement that assigns to
     the receiver or calls one of its methods other than the read-only ones and `S` (syntactic scan of the source, T) -/
 theorem C13_stats_read_only : statsSelfWrites = [] := rfl
+
+/-! ## the composition: bootstraps of a sub-sampled VCF (`Misc.bootstraps_subsample_vcf`) -/
+
+/-- **the projections are listed in `pop_ids` order**: entry `i` of the `projections` the glue hands to
+    `bootstraps_from_dd_chunks` is two chromosomes per individual requested for population `pop_ids[i]`, whatever the order
+    in which the `subsample` dictionary was written (`want` = its items in insertion order) -/
+theorem C13_bsv_projections (want : List (ℕ × ℕ)) (popIds : List ℕ) :
+    bsvProjections want popIds = popIds.map (fun p => 2 * wanted want p) := by
+  unfold bsvProjections
+  apply List.map_congr_left
+  intro p _
+  show dictGet want p * 2 = 2 * wanted want p
+  rw [dictGet_eq_wanted, Nat.mul_comm]
+
+/-- the theorem discriminates: with the dictionary written B, A and `pop_ids` = A, B the sizes are (10, 6); taking them in
+    dictionary order would give (6, 10) -/
+example : bsvProjections [(1, 3), (0, 5)] [0, 1] = [10, 6] ∧ ([(1, 3), (0, 5)].map fun kv => 2 * kv.2) = [6, 10] := by decide
+
+/-- every argument is handed on unchanged: `filter` and `subsample` to `make_data_dict_vcf`, `chunk_size` to
+    `fragment_data_dict`, `pop_ids`, `mask_corners`, `polarized` to `bootstraps_from_dd_chunks`, which is asked for one
+    bootstrap of which the first is taken, `Nboot` times; nothing else happens in the function -/
+theorem C13_bsv_forwarding :
+    (∀ f m p, bsvDictFilter f m p = f) ∧ (∀ w, bsvDictSubsample w = some w) ∧ (∀ n c, bsvFragSize n c = c) ∧
+    (∀ n c, bsvLoopCount n c = n) ∧ (∀ n c, bsvBootN n c = 1) ∧ bsvPick = 0 ∧ (∀ l, bsvBootPopIds l = l) ∧
+    (∀ f m p, bsvBootMaskCorners f m p = m) ∧ (∀ f m p, bsvBootPolarized f m p = p) ∧ bsvShapeOk = true :=
+  ⟨fun _ _ _ => rfl, fun _ => rfl, fun _ _ => rfl, fun _ _ => rfl, fun _ _ => rfl, rfl, fun _ => rfl,
+   fun _ _ _ => rfl, fun _ _ _ => rfl, rfl⟩
+
+/-- a dictionary entry whose calls are those of the requested individuals, in `pop_ids` order, has exactly
+    `projections` successful calls: it is never dropped for "too few calls" — it is usable iff it is biallelic and,
+    when a polarised spectrum is asked for, polarisable -/
+theorem C13_bsv_usable (pol : Bool) (want : List (ℕ × ℕ)) (popIds : List ℕ) (s : Snp)
+    (h : SubsampledCalls want popIds s.calls) :
+    s.successful = bsvProjections want popIds ∧
+    usable pol (bsvProjections want popIds) s = (s.nseg == biallelicLen && !skipEntry pol s.polarized) := by
+  have h1 : s.successful = bsvProjections want popIds := by
+    rw [C13_bsv_projections]
+    unfold Snp.successful
+    unfold SubsampledCalls at h
+    generalize s.calls = cl at h
+    induction h with
+    | nil => rfl
+    | cons hc _ ih =>
+      simp only [List.map_cons, ih]
+      congr 1
+  refine ⟨h1, ?_⟩
+  unfold usable
+  rw [h1, enoughCalls_self, Bool.and_true]
+
+
+/-- **total of a replicate** = the number of biallelic (polarisable, if required) SNPs of the sub-sampled dictionary in
+    the chosen chunks, with multiplicity — every SNP the sub-sampling kept counts, none is lost to the projection -/
+theorem C13_bsv_total (filt mc pol : Bool) (nboot size : ℕ) (want : List (ℕ × ℕ)) (popIds : List ℕ) (dd : List Snp)
+    (choice : List ℕ) (h : ∀ s ∈ dd, SubsampledCalls want popIds s.calls) :
+    boxSum (shapeOf (bsvProjections want popIds)) (bsvReplicateAt filt mc pol nboot size want popIds dd choice)
+      = sumMap choice fun c =>
+          ((((fragment size dd).getD c []).filter fun s => s.nseg == biallelicLen && !skipEntry pol s.polarized).length : ℚ) := by
+  have hmem : ∀ c ∈ fragment size dd, ∀ s ∈ c, SubsampledCalls want popIds s.calls :=
+    fun c hc s hs => h s (mem_of_mem_fragment size dd c hc s hs)
+  have hlen : ∀ c ∈ fragment size dd, ∀ s ∈ c, s.calls.length = (bsvProjections want popIds).length := by
+    intro c hc s hs
+    rw [C13_bsv_projections, List.length_map]
+    exact (List.Forall₂.length_eq (hmem c hc s hs)).symm
+  show boxSum _ (bootAt pol (bsvProjections want popIds) (fragment size dd) choice) = _
+  rw [C13_boot_total pol _ _ choice hlen]
+  apply sumMap_congr
+  intro c _
+  unfold countUsable
+  congr 2
+  apply List.filter_congr
+  intro s hs
+  have hs' : SubsampledCalls want popIds s.calls := by
+    by_cases hc : c < (fragment size dd).length
+    · have e : (fragment size dd).getD c [] = (fragment size dd)[c] := by simp [List.getD, List.getElem?_eq_getElem hc]
+      rw [e] at hs
+      exact hmem _ (List.getElem_mem hc) s hs
+    · have e : (fragment size dd).getD c [] = [] := by simp [List.getD, List.getElem?_eq_none (Nat.le_of_not_lt hc)]
+      rw [e] at hs; cases hs
+  exact (C13_bsv_usable pol want popIds s hs').2
+
+/-- per line: the calls the sub-sampling loop writes for a population add up to two chromosomes per requested individual -/
+theorem C13_bsv_calls (inds : List Indiv) (want : List (ℕ × ℕ)) (pops : List ℕ) (draws : List (List ℕ))
+    (res : List (ℕ × (ℕ × ℕ))) (left : List (List ℕ))
+    (h : subsampleLoop inds want pops draws [] = (some res, left))
+    (hg : ∀ x ∈ inds, complete x = true → x.alleles.length = 2 ∧ ∀ a ∈ x.alleles, a = 0 ∨ a = 1)
+    (hd : ∀ pd ∈ pops.zip draws, pd.2.length = wanted want pd.1 ∧ ∀ ii ∈ pd.2, ii < (completeOfPop inds pd.1).length) :
+    ∀ pc ∈ res, pc.2.1 + pc.2.2 = 2 * wanted want pc.1 := by
+  obtain ⟨used, h1, h2, h3, _⟩ := C13_subsample_loop inds want pops draws [] res left h
+  have hz : pops.zip draws = pops.zip used := by
+    rw [h1]
+    have := List.zip_append (l₁ := pops) (r₁ := []) (l₂ := used) (r₂ := left) h2.symm
+    simpa using this
+  intro pc hpc
+  have e : List.zipWith (fun p d => (p, chosenCalls (completeOfPop inds p) d)) pops used
+      = (pops.zip used).map (fun pd => (pd.1, chosenCalls (completeOfPop inds pd.1) pd.2)) := by
+    rw [List.map_zip_eq_zipWith]; rfl
+  rw [h3, List.nil_append, e] at hpc
+  obtain ⟨pd, hpd, rfl⟩ := List.mem_map.mp hpc
+  obtain ⟨hl, hi⟩ := hd pd (hz ▸ hpd)
+  have hg' : ∀ x ∈ completeOfPop inds pd.1, x.alleles.length = 2 ∧ ∀ a ∈ x.alleles, a = 0 ∨ a = 1 := by
+    intro x hx
+    have := List.mem_filter.mp hx
+    exact hg x this.1 (by simpa using (Bool.and_eq_true _ _ ▸ this.2).2)
+  have := C13_subsample (completeOfPop inds pd.1) 2 hg' pd.2 hi
+  simpa [hl] using this
+
+
+/-- **one line of one replicate**: the entry `make_data_dict_vcf(subsample=…)` writes for a line it keeps, read by
+    `count_data_dict` in `pop_ids` order, has exactly the calls the generated `projections` ask for -/
+theorem C13_bsv_line (st : Site) (want : List (ℕ × ℕ)) (draws : List (List ℕ)) (res : List (ℕ × (ℕ × ℕ))) (left : List (List ℕ))
+    (popIds : List ℕ) (cl : List (ℕ × ℕ)) (pol : Bool)
+    (h : subsampleLoop st.inds want (popOrder st.inds want) draws [] = (some res, left))
+    (hg : ∀ x ∈ st.inds, complete x = true → x.alleles.length = 2 ∧ ∀ a ∈ x.alleles, a = 0 ∨ a = 1)
+    (hd : ∀ pd ∈ (popOrder st.inds want).zip draws,
+        pd.2.length = wanted want pd.1 ∧ ∀ ii ∈ pd.2, ii < (completeOfPop st.inds pd.1).length)
+    (hcl : popIds.mapM (fun p => (res.find? (·.1 == p)).map (·.2)) = some cl) :
+    (siteSnp st cl).successful = bsvProjections want popIds ∧
+    usable pol (bsvProjections want popIds) (siteSnp st cl) = !skipEntry pol (siteSnp st cl).polarized := by
+  have hc := lookup_forall₂ want res (C13_bsv_calls st.inds want _ draws res left h hg hd) popIds cl hcl
+  have := C13_bsv_usable pol want popIds (siteSnp st cl) hc
+  refine ⟨this.1, ?_⟩
+  rw [this.2]
+  have : (siteSnp st cl).nseg = biallelicLen := rfl
+  simp [this]
+
+/-- hypotheses satisfiable, dictionary written in the other order than `pop_ids`: population 1 listed first with 1
+    individual, population 0 with 2; the line's columns start with population 1 -/
+example : subsampleLoop [⟨some 1, [1, 1], false⟩, ⟨some 0, [0, 1], false⟩, ⟨some 0, [9, 9], false⟩, ⟨some 0, [0, 0], false⟩]
+      [(1, 1), (0, 2)] (popOrder [⟨some 1, [1, 1], false⟩, ⟨some 0, [0, 1], false⟩, ⟨some 0, [9, 9], false⟩, ⟨some 0, [0, 0], false⟩] [(1, 1), (0, 2)])
+      [[0], [1, 0]] [] = (some [(1, (0, 2)), (0, (3, 1))], []) ∧
+    [0, 1].mapM (fun p => (([(1, (0, 2)), (0, (3, 1))] : List (ℕ × (ℕ × ℕ))).find? (·.1 == p)).map (·.2)) = some [(3, 1), (0, 2)] ∧
+    bsvProjections [(1, 1), (0, 2)] [0, 1] = [4, 2] := by decide
 
 /-! ## structure of the source as the model assumes it (T) -/
 
